@@ -26,7 +26,7 @@ import (
 // rule groups of checkers/rules/rules.go whose diagnostics promise an equivalent rewrite and that
 // Model_Rewrites covers (source text tie) and the differential oracle executes
 var coveredGroups = []string{"sloppyLen", "emptyStringTest", "stringXbytes", "wrapperFunc", "assignOp", "switchTrue", "unslice",
-	"stringsCompare", "yodaStyleExpr", "valSwap", "stringConcatSimplify", "timeExprSimplify", "offBy1"}
+	"stringsCompare", "yodaStyleExpr", "valSwap", "stringConcatSimplify", "timeExprSimplify", "offBy1", "equalFold"}
 
 type shippedRule struct {
 	group    string
@@ -171,6 +171,7 @@ var (
 	swapRe       = regexp.MustCompile("^can re-write as `(.*)`$")
 	swapStmtsRe  = regexp.MustCompile(`tmp := [^;]+; [^;]+; [^;]+ = tmp`)
 	deferRe      = regexp.MustCompile("^can rewrite as `(.*)`$")
+	useMethodRe  = regexp.MustCompile("^use (.*) method in `(.*)`$")
 )
 
 func fromQuickFix(l *exprgen.Linted, w linter.Warning, _ string) (string, string, bool) {
@@ -409,13 +410,33 @@ var ruleSpecs = append([]ruleSpec{
 	{checker: "wrapperFunc", kind: "expr",
 		gen: func(p func(...string) string) string {
 			s := func() string { return p("s", "t", "fs()", `"ab"`, "s + t", `""`) }
-			if p("s", "b") == "s" {
+			switch p("s", "s", "b", "b", "any", "repl", "brepl") {
+			case "s":
 				return "strings.Index(" + s() + ", " + s() + ") " + p(">= 0", "!= -1")
+			case "any":
+				return "strings.IndexAny(" + s() + ", " + s() + ") " + p(">= 0", "!= -1")
+			case "repl":
+				return "strings.Replace(" + s() + ", " + s() + ", " + s() + ", -1)"
+			case "brepl":
+				bb := func() string { return p("bs", "fbs()", "[]byte(s)", `[]byte("a")`) }
+				return "string(bytes.Replace(" + bb() + ", " + bb() + ", " + bb() + ", -1))"
 			}
 			b := func() string { return p("bs", "fbs()", "[]byte(s)", `[]byte("a")`) }
 			return "bytes.Index(" + b() + ", " + b() + ") " + p(">= 0", "!= -1")
 		},
-		rewrite: fromQuickFix, class: classPurity},
+		rewrite: func(l *exprgen.Linted, w linter.Warning, body string) (string, string, bool) {
+			if o, n, ok := fromQuickFix(l, w, body); ok {
+				return o, n, ok
+			}
+			// the Report-only wrappers name the function to use: `X.Replace(a, b, c, -1)` => `X.ReplaceAll(a, b, c)`
+			if m := useMethodRe.FindStringSubmatch(w.Text); m != nil && strings.HasSuffix(m[1], ".ReplaceAll") {
+				orig := m[2]
+				if i := strings.Index(orig, ".Replace("); i >= 0 && strings.HasSuffix(orig, ", -1)") {
+					return orig, orig[:i] + ".ReplaceAll(" + strings.TrimSuffix(orig[i+len(".Replace("):], ", -1)") + ")", true
+				}
+			}
+			return "", "", false
+		}, class: classPurity},
 	{checker: "stringsCompare", kind: "expr",
 		gen: func(p func(...string) string) string {
 			s := func() string { return p("s", "t", "fs()", `"ab"`, "s + t", `"é"`) }
@@ -956,6 +977,9 @@ func runSynthDiff(meta *common.Meta, outDir string) {
 		groups[g] = true
 	}
 	delete(groups, "offBy1") // its suggestion is a bug fix, not an equivalence claim
+	// equalFold ("consider replacing with"): not among the checkers C10 enumerates; its rule text is tied and its
+	// semantics modelled (C10_equal_fold_*), but it is not executed as an equivalence claim
+	groups["equalFold"] = false
 	cases, hits, misses := valdiff.Collect(
 		func(g string, r ir.Rule) bool { return groups[g] && r.SuggestTemplate != "" }, 1500,
 		func(group string, w linter.Warning, l *exprgen.Linted) (token.Pos, token.Pos, string, string, bool) {
